@@ -209,7 +209,43 @@ func ascendingIdx(idx []int32) bool {
 	return true
 }
 
+// checkC16 wraps the array check with a two-object history: an array built
+// earlier and kept alive must read the same after the case built, loaded and
+// failed to build other arrays.
 func checkC16(c *Case, s *Stats) error {
+	eidx := []int32{1, 2, 63, 64, 130, 700, 4099}
+	eraw := []uint64{0xa1, 0xb2b2, 0xc3c3c3, 0xd4d4d4d4, 0xe5, 0xf6f6, 0x0707070707070707}
+	for _, p := range c.Probe {
+		if p%8192 > eidx[len(eidx)-1] {
+			eidx = append(eidx, p%8192)
+			eraw = append(eraw, uint64(p)*0x9e3779b97f4a7c15)
+		}
+	}
+	earlier, eerr := buildArray(c.Kind, eidx, eraw)
+	if eerr != nil || earlier == nil {
+		if v, ok := eerr.(*violation); ok {
+			return v
+		}
+		return viol("valid-rejected", "constructor rejected valid input for the earlier array: %v", eerr)
+	}
+	before := fmt.Sprintf("%v", snapshotArray(earlier, 9000))
+	if err := checkC16inner(c, s); err != nil {
+		return err
+	}
+	var after string
+	if err := guard("reading an array built earlier", func() error {
+		after = fmt.Sprintf("%v", snapshotArray(earlier, 9000))
+		return nil
+	}); err != nil {
+		return err
+	}
+	if after != before {
+		return viol("live-array-changed", "an array that was built earlier and is still alive reads differently after later array builds: %.300s -> %.300s", before, after)
+	}
+	return nil
+}
+
+func checkC16inner(c *Case, s *Stats) error {
 	kind := c.Kind
 	idx := c.Idx
 	raws := make([]uint64, len(c.Ints))
